@@ -198,11 +198,23 @@ def engine_games(ck, prop, tier, kinds):
 FEW_PIECE = [f for f in []]
 
 
+def extra_fens():
+    """Roots added after the main corpus was frozen (corpus/roots_extra.fen): they get small artefacts of their own, so that a
+    new corner case does not invalidate the large artefacts of the main corpus."""
+    p = os.path.join(VERIF, "corpus", "roots_extra.fen")
+    return [l.strip() for l in open(p) if l.strip() and not l.startswith("#")] if os.path.exists(p) else []
+
+
 def shared(tier):
     """The chess artefacts of a tier. Quick: depth-2 trees of all roots (pseudo/san/mirror detail),
     depth-1 trees with attacker sets, 64 random walks of 120 plies."""
     fens = root_fens()
     a = {}
+    xf = extra_fens()
+    if xf:
+        d = 2 if tier == "quick" else 3
+        a["treex"] = art_tree(xf, d, ["pseudo", "san", "mirror"], "tree%dx" % d)
+        a["attx"] = art_tree(xf, d - 1 if d > 2 else 2, ["pseudo", "att"], "attx")
     if tier == "quick":
         a["tree"] = art_tree(fens, 2, ["pseudo", "san", "mirror"], "tree2")
         a["att"] = art_tree(fens, 1, ["pseudo", "att"], "tree1att")
@@ -254,6 +266,7 @@ def std_chess_check(prop, tier, art_names, perft=0, level="model_checking", extr
     ck = Check(prop, tier, level)
     arts = shared(tier)
     use = [arts[n] for n in art_names] + (arts.get("tree3", []) if "tree" in art_names else [])
+    use += [arts[x] for x, base in (("treex", "tree"), ("attx", "att")) if base in art_names and x in arts]
     for a in use:
         ck.add_tlc(a)
     res = chess_replay(use, [prop], perft=perft)
@@ -969,6 +982,18 @@ def check_C06(tier):
     sparse = [f for f in sparse_fens() if int(f.split()[4]) <= 90][:(6 if quick else 16)]
     # depth 4 is the first depth at which a null-window result that is only a bound can be mistaken for a value
     arts.append((art_tree(sparse, 4, [], "mm-sparse", timeout=4 * 3600), [3, 4]))
+    # the fifty-move rule inside the tree: few-piece roots that can still castle, with the clock at 97..99 - every kind of move
+    # (castling included, which does not reset the clock) can be the hundredth half move at every ply of a depth-3 tree.
+    # (No forced mate is near in these rook endings, so the one case in which the engine's order of terminal tests differs
+    # from the Laws - a mating hundredth half move - stays out of the picture, Appendix E.7.)
+    clocked = []
+    for f in sparse_fens():
+        fl = f.split()
+        if fl[2] != "-" and fl[3] == "-":
+            for hm in (97, 98, 99):
+                clocked.append(" ".join(fl[:4] + [str(hm), "60"]))
+    clock_art = art_tree(clocked[:(12 if quick else 60)], 3, [], "mm-clock", timeout=4 * 3600)
+    arts.append((clock_art, [1, 2, 3]))
     items, jobs = [], []
     drift = {}
     for art, depths in arts:
@@ -1011,7 +1036,7 @@ def check_C06(tier):
             return {str(m): subtree(r, path + (m,), d - 1) for m in o["legal"]}
         for r in rootids:
             o = nodes[(r, ())]
-            if not o["legal"] or roots[r - 1]["hmc"] > 90:
+            if not o["legal"] or (roots[r - 1]["hmc"] > 90 and art is not clock_art):
                 continue
             pos = roots[r - 1]
             node = {"pos": pos, "root": pos, "path": [], "kinds": [], "legal": o["legal"]}
